@@ -10,9 +10,9 @@ from lib import vlex
 
 KINDS = ("resize", "split", "join", "comment", "allcomment", "case", "tabs")
 # kinds used by the parse-only checks (C05, C04) in addition; not part of the fix-run universe
-EXTRA_KINDS = ("blankline", "wsline", "bcomment", "preproc")
+EXTRA_KINDS = ("blankline", "wsline", "bcomment", "preproc", "squeeze")
 # single-step kinds of the fix-run universe (two-step chains draw from KINDS only)
-FIX_KINDS = KINDS + ("preproc", "blankline", "bcomment")
+FIX_KINDS = KINDS + ("preproc", "blankline", "bcomment", "squeeze")
 
 _IGNORE_MARKERS = ("vhdl_comp_off", "translate_off", "synthesis", "pragma", "rtl_synthesis", "altera", "synopsys", "xilinx", "vsg_")
 
@@ -116,6 +116,18 @@ def transform(text, kind, k=0):
                     line = rng.choice(["#ifdef VERIF_%d" % i, "#endif", "#include \"verif_%d.vh\"" % i, "  #define VERIF_%d 1" % i, "#else"])
                     out.append(t.replace("\n", "\n" + line + "\n", 1))
                     continue
+            if kind == "squeeze" and i > 0 and nextk is not None and prevk not in ("lcom", "bcom", "pre", None) and nextk not in ("pre",):
+                # remove the blank between two tokens where the language does not need one (`s <= a` -> `s<=a`),
+                # and (at line starts) remove the indentation: only where re-lexing the glued pair gives the same two lexemes
+                if "\n" not in t:
+                    a_, b_ = S[i - 1][1], S[i + 1][1]
+                    if nextk in ("lcom", "bcom") or _separable(a_, b_):
+                        if rng.random() < p:
+                            out.append("")
+                            continue
+                elif rng.random() < p / 2:
+                    out.append(t[: t.rfind("\n") + 1])  # drop the indentation of the next line
+                    continue
             if kind == "allcomment" and "\n" in t and i > 0 and prevk not in ("lcom", "pre", None):
                 # a comment at EVERY line end that does not have one
                 out.append(" -- e" + str(i) + t)
@@ -125,6 +137,19 @@ def transform(text, kind, k=0):
     if res == text:
         return None
     return res
+
+
+def _separable(a, b):
+    """True when `a` immediately followed by `b` lexes back into exactly (a, b) and the LRM does not
+    require a separator (identifier / abstract literal next to identifier / abstract literal)."""
+    wordish = lambda c: c.isalnum() or c in "_\\\"'#!"
+    if not a or not b or (wordish(a[-1]) and wordish(b[0])):
+        return False
+    try:
+        L = [(k, t) for k, t in vlex.segs("x " + a + b + " y")][2:-2]
+    except Exception:
+        return False
+    return [t for _, t in L] == [a, b]
 
 
 def apply_chain(text, chain):
